@@ -82,7 +82,7 @@ def run(ctx):
         # three program files
         jobs.append(job("prop3", lambda: rtlib.model(ctx, FAM, 3, invs=INVS, names=THREE, label="C26-props-3progs",
                                                      workers=W4, timeout=3000, coverage=True)))
-    nsim, depth = (3000, 6) if th else (150, 5)
+    nsim, depth = (800, 6) if th else (150, 5)
     jobs.insert(1, job("sim", lambda: rtlib.model(ctx, FAM, depth, invs=INVS, emit=True, simulate=nsim, depth=depth * 30 + 5,
                                                   seed=ctx.seed * 17 + 3, label="C26-sim", timeout=1500)))
     if th:
